@@ -213,6 +213,10 @@ def judgeC12 (ops : List OpRec) : List String :=
       match parseRecords args with
       | some recs =>
         let seen := producedRecords op
+        -- a send disturbed on the wire may have put none or some of its records there: where they would have landed is not
+        -- judged (C05 / C15 judge such calls); the rotation is picked up again from the next undisturbed send
+        let ioFault := op.evs.any fun e => match e with | .io _ _ => true | .connect _ ok => !ok | _ => false
+        if ioFault then { s with run := none } else
         let bad := recs.any fun r =>
           match Model.assocGet s.prodMeta r.topic with
           | none => true
